@@ -36,8 +36,26 @@ def gen_cases(seed, n):
             q = g.nested(G.Gen.OPS[k // len(G.Gen.OPS)], G.Gen.OPS[k % len(G.Gen.OPS)])
         else:
             q = g.select(rng.choice([1, 2, 2, 3]))
+        if i % 12 == 5:
+            # wide left side (> 64 rows) so that execute_bind_join takes its parallel chunk path
+            quads = G.gen_dataset(rng, 26)
+            V = G.V
+            q = {"distinct": False, "star": True, "proj": [], "from": [], "fromnamed": [], "group": [], "order": [], "limit": -1,
+                 "p": {"t": "join", "ps": [{"t": "bgp", "tps": [[V("a"), V("b"), V("c")]]}, {"t": "bgp", "tps": [[V("d"), G.C(rng.choice(G.P_IRI)), V("e")]]},
+                                           {"t": "bgp", "tps": [[V("a"), V("h"), V("f")]]}]}}
         text = G.pr_select(q)
-        steps = G.setup_steps(quads) + [{"k": "query", "ep": "query", "text": text, "id": 1},
+        # the dataset is the result of a history: some quads (sharing terms with the kept ones) are inserted and deleted again
+        junk = []
+        for _ in range(rng.choice([0, 2, 3, 4])):
+            s_, p_, o_, g_ = rng.choice(quads)
+            cand = rng.choice([(rng.choice(G.IRIS[:4]), p_, o_, g_), (s_, rng.choice(G.PREDS), o_, g_), (s_, p_, o_, rng.choice(["", G.GRAPHS[0], G.GRAPHS[1]]))])
+            if cand not in quads and cand not in junk and (G.kind_of(cand[2]) == "iri" or cand[1] in (G.P_VAL, G.P_LIT)):
+                junk.append(cand)
+        deletes = []
+        if junk:
+            body = " ".join((f"{G.render(a)} {G.render(b)} {G.render(c)} ." if d == "" else f"GRAPH <{d}> {{ {G.render(a)} {G.render(b)} {G.render(c)} . }}") for a, b, c, d in junk)
+            deletes = [{"k": "update", "ep": "update", "text": "DELETE DATA { " + body + " }"}]
+        steps = G.setup_steps(sorted(set(quads) | set(junk))) + deletes + [{"k": "query", "ep": "query", "text": text, "id": 1},
                                         {"k": "query", "ep": "volcano", "text": text, "id": 2}]
         cases.append({"steps": steps, "pass": {"q": q, "cols": G.cols_of(q), "intended": [list(x) for x in quads], "text": text}})
     return cases
